@@ -29,8 +29,7 @@ commits['CONFIG'] = find('a failure while connecting or configuring')
 commits['TIMESHIFT'] = find('timeshift of weekly and daily periods')
 commits['C22FIX'] = find("caller's")
 commits['C27FIX'] = find('SDMX data type')
-out = [e for e in json.load(open(os.path.join(V, 'known_findings.json'))) if e.get('status') == 'fixed' and e.get('property') in ('C01',)] \
-    if os.path.exists(os.path.join(V, 'known_findings.json')) else []
+out = json.load(open(os.path.join(V, 'known_findings.json'))) if os.path.exists(os.path.join(V, 'known_findings.json')) else []
 seen = {(e['property'], e['key']) for e in out}
 for f in sorted(glob.glob(os.path.join(V, 'known_findings.d', '*.json'))):
     for e in json.load(open(f)):
